@@ -50,12 +50,134 @@ theorem sentinel_never_emitted (data : List Char) (vm fm : Option (List Char →
     rw [h3]; exact removeFrom_subset _ data 0
   exact ⟨hsub, fun hc => hno (hsub _ hc)⟩
 
-/-- **a statement is filtered exactly when its name is selected**: functions by the function predicate,
-assignments by the variable predicate (no predicate: nothing is filtered); its region is well formed -/
-theorem statements_selected_by_name (data : List Char) (vm fm : Option (List Char → Bool)) (out : List Char)
+/-- **a statement is filtered exactly when the predicate of its kind selects its name**: functions by the function
+predicate, assignments by the variable predicate (no predicate: nothing is filtered); its region is well formed -/
+theorem statements_follow_matchers (data : List Char) (vm fm : Option (List Char → Bool)) (out : List Char)
     (r : ScopeResult) (hno : '\x00' ∉ data) (h : mainRun data vm fm = .ok (out, r)) :
     ∀ st ∈ r.stmts, st.filtered = applyMatch (if st.isFunc then fm else vm) st.name ∧ st.start ≤ st.stop :=
   (mainRun_final data vm fm out r hno h).2.2
+
+/-- **the pattern `build_regex_string` builds selects by whole-name match**: for tokens that are alternations
+`p₁|p₂|…` of simple patterns (plain names, escaped punctuation, `.`, `*`/`+`/`?` on one character) the text built by
+`build_regex_string` is inside the modelled `re` subset and `.match` on it selects exactly the names some token
+matches **as a whole** (whitelist mode: the names no token matches), whatever the number and order of the tokens and
+however the names share prefixes, suffixes or infixes with them.  (Full strength since the fix that groups a single token
+too; before it the statement failed for one token with a top-level `|`, see `ungrouped_single_token_counterexample`.) -/
+theorem patterns_select_whole_name (ts : List Token) (hp : ∀ t ∈ ts, renderToken t ≠ []) (whitelist : Bool) :
+    ∃ m, mkMatcher (ts.map renderToken) whitelist = .ok m ∧
+      ∀ name, '\n' ∉ name → applyMatch m name = (!ts.isEmpty && selects ts whitelist name) :=
+  mkMatcher_selects ts hp whitelist
+
+example : ∀ t ∈ [[literal "CFLAGS".toList], [literal "T".toList, literal "D".toList],
+    [[(.lit 'P', .one), (.lit '_', .one), (.any, .star)]]], renderToken t ≠ [] := by decide
+
+/-- the text the code built before the fix for the single token `A|B` (`^A|B$`, not grouped) selects `AX`; the
+specification (whole-name match of the token) does not, and neither does the grouped text built now -/
+theorem ungrouped_single_token_counterexample :
+    (parseRe ['^', 'A', '|', 'B', '$']).map (·.matches ['A', 'X']) = some true ∧
+    selectsText [['A', '|', 'B']] false ['A', 'X'] = some false ∧
+    buildRegexString [['A', '|', 'B']] false = some ['^', '(', '?', ':', 'A', '|', 'B', ')', '$'] ∧
+    (match mkMatcher [['A', '|', 'B']] false with
+      | .ok m => applyMatch m ['A', 'X']
+      | .error _ => true) = false := by
+  decide +kernel
+
+/-- the runs of `main_run` are runs of the scanner with some pair of predicates: the window theorems above apply -/
+theorem names_run_is_scanner_run (data : List Char) (vtoks ftoks : List (List Char)) (vwl fwl : Bool)
+    (out : List Char) (r : ScopeResult) (h : mainRunNames data vtoks ftoks vwl fwl = .ok (out, r)) :
+    ∃ vm fm, mkMatcher vtoks vwl = .ok vm ∧ mkMatcher ftoks fwl = .ok fm ∧ mainRun data vm fm = .ok (out, r) := by
+  unfold mainRunNames at h
+  cases hv : mkMatcher vtoks vwl with
+  | error e => simp [hv] at h
+  | ok vm =>
+    cases hf : mkMatcher ftoks fwl with
+    | error e => simp [hv, hf] at h
+    | ok fm =>
+      cases hm : mainRun data vm fm with
+      | error e => simp [hv, hf, hm] at h
+      | ok x =>
+        simp only [hv, hf, hm, Except.ok.injEq] at h
+        exact ⟨vm, fm, rfl, rfl, by rw [hm, h]⟩
+
+/-- **a statement is filtered exactly when the token list of its kind selects its name** — `main_run` with the token
+lists actually passed: an assignment / a function definition is removed iff some variable / function
+token matches its whole name (whitelist mode: iff none does); with no tokens of a kind nothing of that kind is removed -/
+theorem statements_selected_by_name (data : List Char) (vts fts : List Token) (hv : ∀ t ∈ vts, renderToken t ≠ [])
+    (hf : ∀ t ∈ fts, renderToken t ≠ []) (vwl fwl : Bool) (out : List Char) (r : ScopeResult) (hno : '\x00' ∉ data)
+    (h : mainRunNames data (vts.map renderToken) (fts.map renderToken) vwl fwl = .ok (out, r)) :
+    ∀ st ∈ r.stmts, st.filtered =
+      if st.isFunc then (!fts.isEmpty && selects fts fwl st.name)
+      else (!vts.isEmpty && selects vts vwl st.name) := by
+  obtain ⟨vm, fm, h1, h2, h3⟩ := names_run_is_scanner_run _ _ _ _ _ _ _ h
+  obtain ⟨vm', hv1, hv2⟩ := mkMatcher_selects vts hv vwl
+  obtain ⟨fm', hf1, hf2⟩ := mkMatcher_selects fts hf fwl
+  rw [h1] at hv1; rw [h2] at hf1
+  cases hv1; cases hf1
+  intro st hst
+  have hname := mainRun_names data vm fm out r h3 st hst
+  have hsel := (statements_follow_matchers data vm fm out r hno h3 st hst).1
+  rw [hsel]
+  split
+  · exact hf2 _ hname
+  · exact hv2 _ hname
+
+/-- a run the theorem speaks about: `A=1`, `AB=2` filtered by the variable tokens `A`, `C` — only `A=1` goes -/
+example : (match mainRunNames ['A', '=', '1', '\n', 'A', 'B', '=', '2', '\n'] [['A'], ['C']] [] false false with
+    | .ok (out, _) => out == ['\n', 'A', 'B', '=', '2', '\n']
+    | .error _ => false) = true := by decide +kernel
+
+example : [[literal ['A']], [literal ['C']]].map renderToken = [['A'], ['C']] := by decide
+
+/-- **plain names select exactly themselves**: when the tokens are plain names (no regular-expression character),
+an assignment / function is removed iff its name **is** one of the names passed (whitelist mode: iff it is not) — a name
+that merely starts with, ends with or contains one of them is not affected -/
+theorem plain_names_selected_exactly (data : List Char) (vnames fnames : List (List Char))
+    (hv : ∀ n ∈ vnames, n ≠ [] ∧ ∀ c ∈ n, isSpecial c = false)
+    (hf : ∀ n ∈ fnames, n ≠ [] ∧ ∀ c ∈ n, isSpecial c = false) (vwl fwl : Bool) (out : List Char) (r : ScopeResult)
+    (hno : '\x00' ∉ data) (h : mainRunNames data vnames fnames vwl fwl = .ok (out, r)) :
+    ∀ st ∈ r.stmts, st.filtered =
+      if st.isFunc then (!fnames.isEmpty && (fwl != fnames.contains st.name))
+      else (!vnames.isEmpty && (vwl != vnames.contains st.name)) := by
+  have hmap : ∀ names : List (List Char), (∀ n ∈ names, n ≠ [] ∧ ∀ c ∈ n, isSpecial c = false) →
+      (names.map fun n => [literal n]).map renderToken = names ∧
+      (∀ t ∈ names.map fun n => [literal n], renderToken t ≠ []) ∧
+      ∀ wl name, selects (names.map fun n => [literal n]) wl name = (wl != names.contains name) := by
+    intro names hn
+    have hr : ∀ n ∈ names, renderToken [literal n] = n := by
+      intro n hmem
+      simp only [renderToken, List.map_cons, List.map_nil, joinBar]
+      exact literal_render n (hn n hmem).2
+    refine ⟨?_, ?_, ?_⟩
+    · rw [List.map_map]
+      conv => rhs; rw [← List.map_id names]
+      apply List.map_congr_left
+      intro n hmem
+      exact hr n hmem
+    · intro t ht
+      obtain ⟨n, hmem, rfl⟩ := List.mem_map.mp ht
+      rw [hr n hmem]
+      exact (hn n hmem).1
+    · intro wl name
+      clear hr
+      simp only [selects, List.any_map, Function.comp_def, matchToken, List.any_cons, List.any_nil, Bool.or_false,
+        literal_match]
+      congr 1
+      induction names with
+      | nil => rfl
+      | cons n ns ih =>
+        simp only [List.any_cons, List.contains_cons]
+        rw [ih (fun m hm => hn m (by simp [hm]))]
+        congr 1
+        by_cases hnn : name = n <;> simp [hnn]
+  obtain ⟨ev, nv, sv⟩ := hmap vnames hv
+  obtain ⟨ef, nf, sf⟩ := hmap fnames hf
+  rw [← ev, ← ef] at h
+  have := statements_selected_by_name data _ _ nv nf vwl fwl out r hno h
+  intro st hst
+  rw [this st hst, sv, sf]
+  simp
+
+example : ∀ n ∈ ["CFLAGS".toList, "LDFLAGS".toList, "T".toList], n ≠ [] ∧ ∀ c ∈ n, isSpecial c = false := by decide
 
 /-- **the scanner terminates**: with the fuel `mainRun` uses (`6·len + 16`; one unit per call and per loop
 iteration) no walker ever runs out — every loop iteration of every function moves at least one character
